@@ -725,7 +725,7 @@ def run(chk):
                 if not ws.maybe_order_dependent:
                     chk.violation(tag, dict(payload, orders=[o for o, _ in variants], runs_differ=varying, model_orders_differ=model_varies),
                                   'the output depends on a hash iteration order although no order-dependent construct was planted'
-                                  + (' (a glob import next to an explicit import of the same crate must give one output: fixed finding C14-glob-order)' if ws.glob_mix else ''))
+                                  + (' (this workspace is run repeatedly because it must give ONE output since the /repo fixes of C14-glob-order / C14-glob-const: a glob import creates its own entry, a const is no candidate of a glob or of the fallback)' if ws.glob_mix else ''))
                     continue
                 # the only recorded dependence: the fallback's choice among several crates, through the order of CrateTypes
                 # (orders 0 and 2 differ in it alone); no order of an import SET may reach the output (orders 0/3/4 and 2/5/6)
